@@ -22,7 +22,9 @@ RULE = ("announced mechanism lists: random subsets/orders of {DIGEST-MD5, PLAIN,
         "(ASCII, non-ASCII, comma, equals sign, double quote, space, long; NUL-free) x "
         "authorisation id {empty, set} x server verdict {accept, NO, BYE}; a quarter of the "
         "connects use STARTTLS, where the list above is the one announced after the handshake "
-        "and the clear-text announcement is the same, another, the full or no list. Non-trivial = a "
+        "and the clear-text announcement is the same, another, the full or no list; the "
+        "DIGEST-MD5 challenge offers a realm, another realm, an empty one or none, in random "
+        "order within one process. Non-trivial = a "
         "mechanism was expected to be used; distinct = distinct configurations.")
 ASSUMPTIONS = [
     "R-MS's SASL server sides and decoders (rv/msmodel.py) are the oracle",
@@ -96,6 +98,8 @@ def run_shard(tier, shard, res: Result):
         faults = {}
         if verdict in ("NO", "BYE"):
             faults["auth-verdict"] = verdict
+        realm = rng.choice([b"example.org", b"example.org", None, b"", b"other realm"])
+        res.observe("digest-realm-in-challenge", repr(realm))
         starttls = rng.random() < 0.25
         if starttls:
             # what counts is what the server announces once TLS is up; before that it may
@@ -109,13 +113,14 @@ def run_shard(tier, shard, res: Result):
             if pre != post:
                 res.count("starttls:lists-differ")
             srv = ms.Server(users=users, sasl=pre, post_tls_caps="absent" if post is None else post,
-                            faults=faults, starttls=True,
+                            faults=faults, starttls=True, digest_realm=realm,
                             encodings=rng.choice(["quoted", "literal", "mixed"]))
             sess = mslab.Session(srv)
             out = sess.call("connect", login, pw, authz_id=authz, authmech=authmech,
                             starttls=True)
         else:
             srv = ms.Server(users=users, sasl=announced, faults=faults, starttls=False,
+                            digest_realm=realm,
                             encodings=rng.choice(["quoted", "literal", "mixed"]))
             sess = mslab.Session(srv)
             out = sess.call("connect", login, pw, authz_id=authz, authmech=authmech)
@@ -126,7 +131,7 @@ def run_shard(tier, shard, res: Result):
         attempts = [e for e in srv.log if e[0] == "auth-attempt"]
         creds = [e for e in srv.log if e[0] == "auth-creds"]
         sent = sess.wire.sent()
-        wit = {"announced": announced, "starttls": starttls,
+        wit = {"announced": announced, "starttls": starttls, "digest_realm": repr(realm),
                "announced_before_tls": srv.sasl if starttls else None, "authmech": authmech, "login": login, "password": pw,
                "authz_id": authz, "verdict": verdict, "outcome": repr(out)[:200],
                "attempts": [a[1] for a in attempts], "sent": sent[:300],
